@@ -175,7 +175,7 @@ class FixedExtensionHeader (ExtensionHeader):
     """
     Unpacks a new instance of this class from a buffer
     """
-    if max_length is not None and (max_length - offset) < cls.LENGTH:
+    if max_length is not None and max_length < cls.LENGTH:
       raise TruncatedException()
 
     nh = struct.unpack_from("!B", raw, offset)[0]
